@@ -130,6 +130,7 @@ SPEC = {
         "get_matches_spec_partial", "get_matches_spec_flat", "check_decides_sizes_partial",
         "reported_true_partial", "check_sound_partial", "agree_same_size_and_fields",
         "vector_free_agree", "check_total", "get_le_spec",
+        "check_accepts_agreeing_partial", "check_rejects_agreeing_witness",
         "fixed_get_matches_spec", "fixed_check_sound",
     ]],
     "harness": "c19",
